@@ -69,7 +69,9 @@ fn main() {
             let mut nontrivial = 0;
             for i in 0..n {
                 let len = 4 + (rnd() % 36) as usize;
-                let cfg = [rnd() as u8, rnd() as u8, rnd() as u8];
+                let m = if rnd() & 1 == 0 { 0u32 } else { rnd() as u32 };
+                let mb = m.to_le_bytes();
+                let cfg = [rnd() as u8, rnd() as u8, rnd() as u8, mb[0], mb[1], mb[2], mb[3]];
                 let ops: Vec<[u8; 3]> = (0..len).map(|_| [rnd() as u8, rnd() as u8, rnd() as u8]).collect();
                 let case = SCase { cfg, ops };
                 println!("CASE {} {}", i, case.to_hex());
